@@ -82,11 +82,40 @@ func sfOracle(d []byte, q int) (data []byte, next int, err error) {
 	}
 }
 
+// built-in scripts (used when SFREPLAY is not set: the bounded stand-in of the thorough tier and the witness of the
+// pinned-tree defect): a (0,nil) read between prefix bytes, the last byte of a chunk together with io.EOF, a chunk
+// split byte by byte, padding between chunks, end of stream inside a prefix and inside a body.
+var sfBuiltin = []string{
+	`{"steps":[{"hex":"81"},{"hex":""},{"hex":"01"},{"hex":"aa"}]}`,
+	`{"steps":[{"hex":"c1"},{"hex":""},{"hex":""},{"hex":"00"},{"hex":"` + "ab" + `","eof":true}]}`,
+	`{"steps":[{"hex":"83"},{"hex":"01"},{"hex":"02"},{"hex":"03","eof":true}]}`,
+	`{"steps":[{"hex":"03000000"},{"hex":"82"},{"hex":"0102"},{"hex":"01"},{"hex":"00"},{"hex":"81ff","eof":true}]}`,
+	`{"steps":[{"hex":"c0"},{"hex":"","eof":true}]}`,
+	`{"steps":[{"hex":"85010203","eof":true}]}`,
+	`{"steps":[{"hex":"c0"},{"hex":"80"},{"hex":"80"}]}`,
+	`{"steps":[]}`,
+	`{"steps":[{"hex":"80","eof":true}]}`,
+	`{"steps":[{"hex":"81"},{"hex":"aa","eof":true}]}`,
+	`{"steps":[{"hex":""},{"hex":"c0","eof":true}]}`,
+	`{"steps":[{"hex":"00"},{"hex":"80","eof":true}]}`,
+	`{"steps":[{"hex":"c0"},{"hex":"00","eof":true}]}`,
+}
+
 func TestSFReplayReadData(t *testing.T) {
-	var sc sfScript
-	if err := json.Unmarshal([]byte(os.Getenv("SFREPLAY")), &sc); err != nil {
-		t.Fatalf("bad SFREPLAY: %v", err)
+	scripts := sfBuiltin
+	if env := os.Getenv("SFREPLAY"); env != "" {
+		scripts = []string{env}
 	}
+	for _, js := range scripts {
+		var sc sfScript
+		if err := json.Unmarshal([]byte(js), &sc); err != nil {
+			t.Fatalf("bad script %s: %v", js, err)
+		}
+		sfRunScript(t, sc)
+	}
+}
+
+func sfRunScript(t *testing.T, sc sfScript) {
 	r := &sfReader{}
 	var all []byte
 	for _, s := range sc.Steps {
